@@ -79,6 +79,13 @@ def convert(src):
     while True:
         m = CL.search(s, pos)
         if not m: break
+        # a clause inside a preprocessor line (e.g. #define X_FRAME __CPROVER_assigns(...)) is left alone
+        ls = s.rfind('\n', 0, m.start()) + 1
+        if s[ls:m.start()].lstrip().startswith('#'):
+            le = s.find('\n', m.start())
+            le = len(s) if le < 0 else le
+            out.append(s[pos:le]); pos = le
+            continue
         # header: back from m.start() to previous ';' or '}' or preprocessor line
         hstart = max(s.rfind(';', pos, m.start()), s.rfind('}', pos, m.start()))
         hstart = hstart + 1 if hstart >= 0 else pos
